@@ -140,9 +140,13 @@ impl WriteAheadLog {
 
         let file = open_segment(&segment_path).await?;
         let current_size = file.metadata().await.map_err(map_io_error)?.len();
+        // Segments holding flushed entries are removed by `truncate_before`, so the
+        // entries left on disk may all be gone. Never hand out a sequence number at or
+        // below one that is recorded as flushed: recovery would skip such an entry.
+        let flushed_seq = load_flushed_seq(&config.wal_dir)?;
         let next_seq = match last_sequence_in_segments(&segments)? {
-            Some(last_seq) => last_seq + 1,
-            None => 1,
+            Some(last_seq) => last_seq.max(flushed_seq) + 1,
+            None => flushed_seq + 1,
         };
 
         Ok(Self {
